@@ -123,6 +123,11 @@ func (s *Swarm[T]) Close() error {
 	err := s.inner.Close()
 	s.hub.CloseWithError(p2p.ErrClosed)
 	s.eg.Wait()
+	// stop the rekey and handshake timers of every channel
+	s.store.purge(func(_ string, c *channelState) bool {
+		c.Channel.Close()
+		return false
+	})
 	return err
 }
 
